@@ -1074,6 +1074,14 @@ func famAcc(iters int) {
 			fmt.Fprintln(os.Stderr, "harness: NewDecoder:", err)
 			continue
 		}
+		if it%2 == 0 {
+			// the Decoder has a history: another message of the same shapes whose decoding fails in its LAST field, after the requested
+			// tags before it were recorded - nothing of it may show in the result of the next, well-formed message
+			spoil := append(genMessage(rng, 0, shapes), 0x0a, 0x05, 0x01)
+			if hs := c.decodeObj(dec, def, spoil, o.mode, o.name); hs.live {
+				c.close(hs)
+			}
+		}
 		h := c.decodeObj(dec, def, msg, o.mode, o.name)
 		if h.live {
 			c.exercise(h, 0, edgeIter || rng.Intn(4) == 0)
